@@ -155,6 +155,7 @@ pub fn run(args: &[String]) {
         "c03" => c03(&mut r, &fonts, n, &mut tr),
         "c05" => c05(&mut r, &fonts, n, &mut tr),
         "c01" => c01(&mut r, &fonts, n, &mut tr, args),
+        "c01gen" => c01gen(&mut tr),
         "one" => {
             // replay: rbv e2e one <prop> --font PATH --req "<request>"
             let prop = args.get(1).map(|s| s.as_str()).unwrap_or("");
@@ -796,7 +797,128 @@ fn c01(r: &mut Rng, fonts: &[FontInfo], n: u64, tr: &mut Option<std::fs::File>, 
             fi.data.clone()
         };
         trace(tr, &format!("{} {} [{}]", i, fi.path, fmt_req(&req)));
-        check_c01(&fi.path, &data, &req, &mut cnt);
+        let before = cnt.fails;
+        let mutated = data != fi.data;
+        // a failure on a byte-mutated font is only replayable with the mutated bytes: dump them first
+        let mut path = fi.path.clone();
+        if mutated {
+            if let Ok(dir) = std::env::var("RBV_DUMP_DIR") {
+                let mut h: u64 = 0xcbf29ce484222325;
+                for b in &data {
+                    h = (h ^ *b as u64).wrapping_mul(0x100000001b3);
+                }
+                let pth = format!("{}/mutated-{:016x}.ttf", dir, h);
+                path = pth;
+            }
+        }
+        check_c01(&path, &data, &req, &mut cnt);
+        if cnt.fails > before && mutated && path != fi.path {
+            let _ = std::fs::create_dir_all(std::path::Path::new(&path).parent().unwrap());
+            let _ = std::fs::write(&path, &data);
+        }
+    }
+    cnt.summary("C01");
+}
+
+// ------------------------------------------------------------------------------- C01 adversarial
+
+/// Deterministic adversarial generated fonts: growth bombs, recursion rings, deep contexts,
+/// long attachment chains, very long texts.  Each case is traced before it runs so that a process
+/// abort (stack exhaustion) or a hang can be attributed by the driver.
+fn c01gen(tr: &mut Option<std::fs::File>) {
+    use crate::fontgen::*;
+    let mut cnt = Counters::default();
+    let mut run_case = |name: &str, spec: &FontSpec, req: Req, cnt: &mut Counters, tr: &mut Option<std::fs::File>| {
+        let data = build(spec);
+        trace(tr, &format!("c01gen {} n={}", name, req.text.len()));
+        let t0 = std::time::Instant::now();
+        check_c01(&format!("generated:{}", name), &data, &req, cnt);
+        let ms = t0.elapsed().as_millis();
+        if ms > 20_000 {
+            cnt.fail("C01", "slow", &format!("generated:{}", name), &Req { text: vec![], ..req.clone() }, &format!("ms={} n={}", ms, req.text.len()));
+        }
+        println!("c01gen-case {} n={} ms={}", name, req.text.len(), ms);
+    };
+    let text_of = |n: usize, cps: &[u32]| -> Vec<(u32, u32)> { (0..n).map(|i| (cps[i % cps.len()], i as u32)).collect() };
+    // 1. growth bomb: 14 lookups, each a -> a a
+    {
+        let mut f = FontSpec::basic(4);
+        let lookups: Vec<Lookup<SubstSubtable>> = (0..14)
+            .map(|_| Lookup::one(SubstSubtable::Multiple { coverage: Coverage::Glyphs(vec![1]), sequences: vec![vec![1, 1]] }))
+            .collect();
+        f.gsub = Some(Layout::single_feature(*b"ccmp", lookups));
+        for n in [1usize, 10, 300] {
+            run_case("bomb", &f, Req { text: text_of(n, &[pua(0)]), flags: 3, ..Default::default() }, &mut cnt, tr);
+        }
+    }
+    // 2. recursion ring: context lookup 0 applies lookup 0 at position 0; lookup 1 nests 0
+    {
+        let mut f = FontSpec::basic(4);
+        let ring = SubstSubtable::Context3 { coverages: vec![Coverage::Glyphs(vec![1]), Coverage::Glyphs(vec![1])], lookups: vec![SeqLookup { sequence_index: 0, lookup_index: 0 }, SeqLookup { sequence_index: 1, lookup_index: 1 }] };
+        let grow = SubstSubtable::Multiple { coverage: Coverage::Glyphs(vec![1]), sequences: vec![vec![1, 1]] };
+        f.gsub = Some(Layout::single_feature(*b"ccmp", vec![Lookup::one(ring), Lookup::one(grow)]));
+        for n in [2usize, 40, 2000] {
+            run_case("ring", &f, Req { text: text_of(n, &[pua(0)]), flags: 3, ..Default::default() }, &mut cnt, tr);
+        }
+    }
+    // 3. chain of 80 nested context lookups (deeper than the nesting limit)
+    {
+        let mut f = FontSpec::basic(4);
+        let mut lookups: Vec<Lookup<SubstSubtable>> = Vec::new();
+        for k in 0..80u16 {
+            lookups.push(Lookup::one(SubstSubtable::Context3 { coverages: vec![Coverage::Glyphs(vec![1])], lookups: vec![SeqLookup { sequence_index: 0, lookup_index: k + 1 }] }));
+        }
+        lookups.push(Lookup::one(SubstSubtable::Single2 { coverage: Coverage::Glyphs(vec![1]), substitutes: vec![2] }));
+        f.gsub = Some(Layout::single_feature_top(*b"ccmp", 1, lookups));
+        run_case("deep-nesting", &f, Req { text: text_of(50, &[pua(0)]), flags: 3, ..Default::default() }, &mut cnt, tr);
+    }
+    // 4. cursive chain with the RightToLeft flag (child precedes parent): very long text
+    {
+        let mut f = FontSpec::basic(4);
+        let cur = PosSubtable::Cursive { coverage: Coverage::Glyphs(vec![1]), entry_exit: vec![(Some(Anchor { x: 0, y: 10 }), Some(Anchor { x: 500, y: 30 }))] };
+        f.gpos = Some(Layout::single_feature(*b"curs", vec![Lookup::with_flags(1, vec![cur.clone()])]));
+        for n in [100usize, 20_000, 200_000] {
+            run_case("cursive-rtl-flag", &f, Req { text: text_of(n, &[pua(0)]), flags: 3, ..Default::default() }, &mut cnt, tr);
+        }
+        f.gpos = Some(Layout::single_feature(*b"curs", vec![Lookup::with_flags(0, vec![cur])]));
+        run_case("cursive", &f, Req { text: text_of(200_000, &[pua(0)]), flags: 3, ..Default::default() }, &mut cnt, tr);
+    }
+    // 5. one base followed by 70000 marks attached by mark-to-base and mark-to-mark
+    {
+        let mut f = FontSpec::basic(4);
+        f.gdef = Some(Gdef { glyph_classes: vec![(1, 1), (2, 3)], mark_attach_classes: vec![], mark_glyph_sets: vec![] });
+        let mb = PosSubtable::MarkBase { mark_coverage: Coverage::Glyphs(vec![2]), base_coverage: Coverage::Glyphs(vec![1]), class_count: 1, marks: vec![(0, Anchor { x: 0, y: 0 })], bases: vec![vec![Some(Anchor { x: 200, y: 700 })]] };
+        let mm = PosSubtable::MarkMark { mark1_coverage: Coverage::Glyphs(vec![2]), mark2_coverage: Coverage::Glyphs(vec![2]), class_count: 1, marks: vec![(0, Anchor { x: 0, y: 0 })], mark2s: vec![vec![Some(Anchor { x: 0, y: 200 })]] };
+        f.gpos = Some(Layout::with_features(vec![(*b"mark", vec![0]), (*b"mkmk", vec![1])], vec![Lookup::one(mb), Lookup::one(mm)]));
+        let mut text = vec![(pua(0), 0u32)];
+        for i in 0..70_000u32 {
+            text.push((pua(1), i + 1));
+        }
+        run_case("marks-70000", &f, Req { text, flags: 3, ..Default::default() }, &mut cnt, tr);
+    }
+    // 6. very long plain texts, all directions
+    {
+        let f = FontSpec::basic(8).with_basic_vmetrics();
+        for d in DIRS {
+            run_case("long-plain", &f, Req { text: text_of(120_000, &[pua(0), pua(1), pua(2), 0x20, 0x301]), dir: Some(d), flags: 3, ..Default::default() }, &mut cnt, tr);
+        }
+    }
+    // 7. morx insertion machine that inserts on every glyph without advancing
+    {
+        let mut f = FontSpec::basic(6);
+        let table = StateTable {
+            n_classes: 5,
+            class_lookup: AatLookup::new(6, vec![(1, 4)]),
+            states: vec![vec![0, 0, 0, 0, 1], vec![0, 0, 0, 0, 1]],
+            entries: vec![
+                InsEntry { new_state: 0, flags: 0, current_insert_index: 0xFFFF, marked_insert_index: 0xFFFF },
+                InsEntry { new_state: 0, flags: 0x4000 | (2 << 5), current_insert_index: 0, marked_insert_index: 0xFFFF },
+            ],
+        };
+        f.morx = Some(Morx { version: 2, chains: vec![MorxChain { default_flags: 1, features: vec![], subtables: vec![MorxSubtable { coverage: 0, sub_feature_flags: 1, kind: MorxKind::Insertion { table, glyphs: vec![1, 1] } }] }] });
+        for n in [3usize, 200] {
+            run_case("morx-insert-loop", &f, Req { text: text_of(n, &[pua(0)]), flags: 3, ..Default::default() }, &mut cnt, tr);
+        }
     }
     cnt.summary("C01");
 }
